@@ -91,6 +91,9 @@ def r_simple(ck: Checker) -> None:
     # element-local variables are renamed per element
     mk = resolved_calls(ck.prg, func, "ngo.utils.globals:UniqueVariables.make_unique")
     ck.add("element-local variables are renamed fresh", len(mk) >= 1, func, func.node, f"make_unique calls: {len(mk)}", "A5: variables local to an element must not capture variables of the rule when they become global")
+    uvs = [c for c in resolved_calls(ck.prg, func, "ngo.utils.globals:UniqueVariables")]
+    ck.add("fresh names avoid every variable of the rule", len(uvs) == 1 and len(uvs[0].args) == 1 and unparse(uvs[0].args[0]) == rule, func, uvs[0] if uvs else func.node,
+           f"UniqueVariables({unparse(uvs[0].args[0]) if uvs and uvs[0].args else '?'})", "renaming apart from the aggregate only lets a renamed local (X0) capture a global variable X0 of the rule")
     lv = single_def(func, "lvars")
     ok = lv is not None and unparse(lv).replace(" ", "") == "set(collect_ast(elem,'Variable'))-gvars"
     ck.add("renamed = variables of the element that are not global in the body", ok, func, func.node, f"lvars = `{unparse(lv) if lv is not None else None}`", "")
@@ -199,7 +202,7 @@ def r_char_vars(ck: Checker) -> None:
     func = ck.prg.func("minmax_aggregates:_characteristic_variables")
     term = func.params()[0]
     ys = [n for n in find_nodes(func.node, lambda n: isinstance(n, ast.YieldFrom))]
-    ck.need(len(ys) >= 2, "_characteristic_variables yields per term kind")
+    ck.need(len(ys) >= 1, "_characteristic_variables yields per term kind")
     kinds = ["Variable", "SymbolicTerm", "Function", "BinaryOperation", "UnaryOperation", "Interval", "Pool"]
     for kind in kinds:
         it = ck.interp(func, Pins.of(vals={f"{term}.ast_type": f"ASTType.{kind}"}))
